@@ -9,6 +9,7 @@ from sqlfluff.core.parser import (
     Anything,
     BaseSegment,
     Bracketed,
+    CodeSegment,
     Delimited,
     KeywordSegment,
     Matchable,
@@ -117,7 +118,9 @@ materialize_dialect.add(
                 f"'{compression}'"
                 for compression in materialize_dialect.sets("materialize_sizes")
             ],
-            KeywordSegment,
+            # NOTE: Not a keyword: this form is a quoted string literal,
+            # which the capitalisation rules must leave alone.
+            CodeSegment,
             type="compression_type",
         ),
     ),
